@@ -59,7 +59,7 @@ class TLCResult:
 
 _RE_STATES = re.compile(r"(\d+) states generated, (\d+) distinct states found")
 _RE_DEPTH = re.compile(r"The depth of the complete state graph search is (\d+)")
-_RE_VIOL = re.compile(r"Error: Invariant (\w+) is violated|Error: Action property (\w+) is violated")
+_RE_VIOL = re.compile(r"Error: Invariant (\w+) is violated|Error: Action property (\w+) is violated|Error: Temporal property (\w+) was violated|Error: (Temporal) properties were violated")
 _RE_COV = re.compile(r"^<(\w+) line \d+, col \d+ to line \d+, col \d+ of module (\w+)(?: \([\d ]+\))?>: (\d+):(\d+)", re.M)
 
 
@@ -128,7 +128,7 @@ def tlc(
         depth=int(md.group(1)) if md else 0,
         out=out,
         wall=wall,
-        violated=(mv.group(1) or mv.group(2)) if mv else None,
+        violated=(mv.group(1) or mv.group(2) or mv.group(3) or mv.group(4)) if mv else None,
         coverage=cov,
     )
 
